@@ -54,3 +54,21 @@ package preprocess
 //@ func (*Preprocessor).inlineTemplComponentFuncLit
 //@ prop C17 C16
 //@ ghost owns graph
+
+//@ -- C02 (routing): blocks are referenced by index during backpropagation, so in the rewritten graph every block sits
+//@ -- at the position its Index names, and rewriting only ever appends blocks.
+//@ define (blockIndexOK g) (forall ((k Int)) (=> (and (<= 0 k) (< k (len g.Blocks))) (and (not (= (idx g.Blocks k) nil)) (= (. (idx g.Blocks k) Index) k))))
+//@ define (onlyAppends g) (and (>= (len g.Blocks) (old (len g.Blocks))) (forall ((k Int)) (=> (and (<= 0 k) (< k (old (len g.Blocks)))) (= (idx g.Blocks k) (old (idx g.Blocks k))))))
+
+//@ func (*Preprocessor).canonicalizeConditional
+//@ prop C02
+//@ -- the successor array of a block is never the graph's own block array (true of copied graphs and of the blocks
+//@ -- allocated here)
+//@ requires (and (not (= graph nil)) (not (= thisBlock nil)) (blockIndexOK graph) (not (= (s.arr thisBlock.Succs) (s.arr graph.Blocks))))
+//@ modifies (obj graph) (obj thisBlock) (elems graph.Blocks) (elems thisBlock.Nodes) (elems thisBlock.Succs)
+//@ ensures indices-name-positions (blockIndexOK graph)
+//@ ensures only-appends-blocks (onlyAppends graph)
+//@ func (*Preprocessor).canonicalizeConditional
+//@ ensures block-array-kept-or-fresh (or (= (s.arr graph.Blocks) (old (s.arr graph.Blocks))) (fresh (s.arr graph.Blocks)))
+//@ ensures other-blocks-untouched (forall ((b *cfg.Block)) (=> (and (allocated-before b) (not (= b thisBlock))) (= (deref b) (old (deref b)))))
+//@ ensures successor-array-kept (= (s.arr thisBlock.Succs) (old (s.arr thisBlock.Succs)))
